@@ -1,6 +1,12 @@
 import CJ.Drv.Loop
-/-! Driver for C14 (stub until the models are written). -/
+import CJ.Drv.Phantom
+/-! Driver for C14: phantom selection (all selector generations, station / client / frozen clients),
+`crypto/rand.Int` and `binary.Varint` on their own. -/
 open CJ.Drv
 
 def main : IO Unit := runDriver fun
+  | "phantom" :: args => Phantom.handle args
+  | "offset" :: args => Phantom.handleOffset args
+  | "randint" :: args => Phantom.handleRandInt args
+  | "varint" :: args => Phantom.handleVarint args
   | _ => none
